@@ -70,6 +70,11 @@ for _n in (1, 2, 3, 4):
     _join(_n)
 
 
+# the stand-ins for observation / miss records carry the sensor-position columns of the real rows; every sensor here sits on ONE site (co-located
+# sensors share their coordinates bit for bit), so nothing may identify a record by "target seen from this position"
+_SITE = dict(pos_x_km=6378.137, pos_y_km=0.25, pos_z_km=-12.5, vel_x_km_p_sec=0.0, vel_y_km_p_sec=0.465, vel_z_km_p_sec=0.0, julian_date=2459000.5)
+
+
 def _engine(vc, **kw):
     base = dict(_observations=[], _saved_observations=[], _missed_observations=[], _saved_missed_observations=[], sensor_changes={})
     base.update(kw)
@@ -82,9 +87,9 @@ def _engine(vc, **kw):
 def misses(vc):
     for n in range(4):
         # (another sensor observed target 100 in the same step: that does not make this pair's miss go away)
-        ms = [_NS(tag=i, target_id=100 + i % 2, sensor_id=10 + i) for i in range(n)]
-        old = [_NS(tag="old", target_id=100, sensor_id=9)]
-        eng = _engine(vc, _missed_observations=list(old), _saved_missed_observations=list(old), _observations=[_NS(tag="seen", target_id=100, sensor_id=8)])
+        ms = [_NS(**_SITE, tag=i, target_id=100 + i % 2, sensor_id=10 + i) for i in range(n)]
+        old = [_NS(**_SITE, tag="old", target_id=100, sensor_id=9)]
+        eng = _engine(vc, _missed_observations=list(old), _saved_missed_observations=list(old), _observations=[_NS(**_SITE, tag="seen", target_id=100, sensor_id=8)])
         eng.saveMissedObservations(list(ms))
         ok = [m.tag for m in eng._missed_observations] == ["old"] + list(range(n)) and [m.tag for m in eng._saved_missed_observations] == ["old"] + list(range(n))
         cur = eng.getCurrentMissedObservations()
@@ -99,8 +104,8 @@ def misses(vc):
             note="processing the results of several task-execution jobs in any order leaves the same observations, misses (as multisets) and the same sensor pointing changes: every tasked sensor of EVERY job keeps its new boresight and last-tasked time, each record is stored exactly once")
 def taskexec(vc):
     def result(j, sensors):
-        return _NS(target_id=100 + j, observations=[_NS(tag=f"o{j}.{s}", target_id=100 + j, sensor_id=s) for s in sensors],
-                   missed_observations=[_NS(tag=f"m{j}.{s}", target_id=100 + j, sensor_id=s + 50) for s in sensors],
+        return _NS(target_id=100 + j, observations=[_NS(**_SITE, tag=f"o{j}.{s}", target_id=100 + j, sensor_id=s) for s in sensors],
+                   missed_observations=[_NS(**_SITE, tag=f"m{j}.{s}", target_id=100 + j, sensor_id=s + 50) for s in sensors],
                    sensor_info_list=[{"sensor_id": s, "boresight": f"b{j}.{s}", "time_last_tasked": f"t{j}.{s}"} for s in sensors])
     for jobs in ([(0, [10]), (1, [11])], [(0, [10, 12]), (1, [11])], [(0, [10]), (1, [11]), (2, [12, 13])]):
         views = []
@@ -120,6 +125,25 @@ def taskexec(vc):
         exp_obs = sorted(f"o{j}.{s}" for j, ss in jobs for s in ss)
         exp_miss = sorted(f"m{j}.{s}" for j, ss in jobs for s in ss)
         vc.ensure("O-C08-process.exact", all(v[0] == exp_obs and v[1] == exp_miss and v[2] == exp_obs and v[3] == exp_miss for v in views))
+
+
+@obligation("C08", "shared_sensor", ensures=["O-C08-pointing.shared-sensor-order-independent", "O-C08-commute.shared-sensor-records"],
+            fns=[TE + "TaskExecutionRegistration.processResults", EB + "TaskingEngine.updateFromAsyncTaskExecution"], mode="Z", assumes=RAY,
+            bounded="one sensor tasked to two targets in one step (the all-visible policy allows it): two jobs, both processing orders",
+            note="a sensor that is tasked to two targets in one step appears in two task-execution jobs, each of which slews its own copy; the records are the same in both "
+                 "completion orders, and so must be the pointing state the sensor is left with")
+def shared_sensor(vc):
+    def result(j):
+        return _NS(target_id=100 + j, observations=[_NS(**_SITE, tag=f"o{j}", target_id=100 + j, sensor_id=10)], missed_observations=[],
+                   sensor_info_list=[{"sensor_id": 10, "boresight": f"towards-target-{100 + j}", "time_last_tasked": "now"}])
+    views = []
+    for order in ((0, 1), (1, 0)):
+        eng = _engine(vc)
+        for j in order:
+            vc.new(TE + "TaskExecutionRegistration", _registrant=eng).processResults(result(j))
+        views.append((sorted(o.tag for o in eng._observations), sorted(o.tag for o in eng._saved_observations), dict(eng.sensor_changes)))
+    vc.ensure("O-C08-commute.shared-sensor-records", views[0][:2] == views[1][:2] == (["o0", "o1"], ["o0", "o1"]))
+    vc.ensure("O-C08-pointing.shared-sensor-order-independent", views[0][2] == views[1][2])
 
 
 class Rec:
@@ -235,7 +259,7 @@ def assess_jobs(vc):
             bounded="2 targets, 2 sensors, 2 engines",
             note="after every engine's assess the step applies exactly that engine's sensor pointing changes (each sensor gets its own boresight / last-tasked time), routes each observation to its target's list only, and creates exactly one update job per estimate carrying exactly its observations")
 def step_routing(vc):
-    o1, o2, o3 = _NS(tag="x", sensor_id=10, target_id=1), _NS(tag="y", sensor_id=11, target_id=2), _NS(tag="z", sensor_id=11, target_id=1)
+    o1, o2, o3 = _NS(**_SITE, tag="x", sensor_id=10, target_id=1), _NS(**_SITE, tag="y", sensor_id=11, target_id=2), _NS(**_SITE, tag="z", sensor_id=11, target_id=1)
     ch5 = {10: {"boresight": "b10", "time_last_tasked": "t10"}}
     ch6 = {11: {"boresight": "b11", "time_last_tasked": "t11"}}
     scn, log = SF.run_step(vc, engines=lambda lg: {5: SF.Engine(lg, 5, ch5, [o1]), 6: SF.Engine(lg, 6, ch6, [o2, o3])})
@@ -247,10 +271,18 @@ def step_routing(vc):
     vc.ensure("O-C08-routing.observations", got == {1: ["x", "z"], 2: ["y"]})
     vc.ensure("O-C08-routing.one-update-per-estimate", sorted(e[1][1].simulation_id for e in jobs) == [1, 2] and all(e[1][2] == ("handle", e[1][1]) for e in jobs))
     # updateInfo itself
-    sens = _NS(boresight=None, time_last_tasked=None)
+    sens = _NS(boresight=np.array([1.0, 0.0, 0.0]), time_last_tasked=0.0)
     a = vc.new("resonaate.agents.sensing_agent:SensingAgent", _sensors=sens)
-    a.updateInfo({"boresight": "B", "time_last_tasked": "T"})
-    vc.ensure("O-C08-pointing.applied", sens.boresight == "B" and sens.time_last_tasked == "T")
+    newb = np.array([0.0, 0.6, 0.8])
+    a.updateInfo({"boresight": newb.copy(), "time_last_tasked": 60.0})
+    ok = bool(np.array_equal(sens.boresight, newb)) and sens.time_last_tasked == 60.0
+    # a sensor tasked again to a target that has not moved in its frame (a ground radar on a geostationary satellite): same pointing, NEW last-tasked time
+    bore = np.array([0.3, -0.4, 0.8660254037844386])
+    sens2 = _NS(boresight=bore.copy(), time_last_tasked=60.0)
+    a2 = vc.new("resonaate.agents.sensing_agent:SensingAgent", _sensors=sens2)
+    a2.updateInfo({"boresight": bore.copy(), "time_last_tasked": 120.0})
+    ok = ok and sens2.time_last_tasked == 120.0 and bool(np.array_equal(sens2.boresight, bore))
+    vc.ensure("O-C08-pointing.applied", ok)
 
 
 # "after the step every tasked sensor's pointing direction and last-tasked time reflect that tasking": the per-sensor part of that
